@@ -301,3 +301,41 @@ fn c18_x_transfer_two_segments() {
     vassert!(a.send_window.level == ws, "ROLE:btp-ack-reopens-send-window");
     vcover!(rounds == 2 && ph == 255);
 }
+
+/// Sender and receiver composed for ONE step (quick tier): whatever first segment an established
+/// sender produces for a message of 1..=24 bytes (segment size 20: one or two segments) is
+/// accepted by a receiver in the matching state - in particular the non-final first segment of
+/// a message that is longer than one segment's payload but not longer than the segment size.
+#[cfg_attr(kani, kani::proof)]
+#[cfg_attr(kani, kani::unwind(30))]
+#[cfg_attr(kani, kani::stub(RingBuf::push, model_push))]
+#[cfg_attr(kani, kani::stub(RingBuf::pop, model_pop))]
+#[cfg_attr(kani, kani::stub(RingBuf::pop_byte, model_pop_byte))]
+#[cfg_attr(kani, kani::stub(RingBuf::free, model_free))]
+#[cfg_attr(kani, kani::stub(embassy_time::Instant::now, crate::verif_support::stub_instant_now))]
+#[cfg_attr(not(kani), test)]
+fn c18_q_first_segment_accepted_by_peer() {
+    let mut a = Session::new();
+    let mut b = Session::new();
+    let ws = any_u8();
+    assume(ws >= 2 && ws <= 6);
+    a.setup(PEER, 4, 20, ws);
+    b.setup(BtAddr([6, 5, 4, 3, 2, 1]), 4, 20, ws);
+    let ph = any_u8();
+    a.send_window.last_sent_seq_num = ph;
+    b.recv_window.ack_seq = ph;
+    #[cfg(kani)]
+    model_reset(0);
+    let msg: [u8; 24] = any_bytes::<24>();
+    let ml = any_usize();
+    assume(ml >= 1 && ml <= 24);
+    let mut off = 0usize;
+    let mut seg = [0u8; 24];
+    let n = vok!(a.prep_tx_data(&msg[..ml], &mut off, &mut seg), "harness-setup-call-succeeds");
+    vassert!(n > 0 && n <= 20, "ROLE:btp-segment-fits-mtu");
+    vcover!(ml > 16 && ml <= 20);
+    vcover!(off == ml);
+    let accepted = b.process_rx(None, PEER, &seg[..n]).is_ok();
+    vassert!(accepted, "ROLE:btp-well-formed-segment-accepted");
+    vassert!(b.message_available() == (off == ml), "ROLE:btp-message-available-iff-complete");
+}
